@@ -692,6 +692,8 @@ func c39RunCase(rg *c39Rig, c c39Case) (clause string, o c39Obs, err error) {
 		clause = "over-limit-delivered"
 	case overLimit:
 		clause = ""
+	case strings.HasPrefix(o.IOErr, "row "):
+		clause = "corrupted" // a row packet that does not decode: the stream the client got is not the rows the backends produced
 	case gotErr:
 		clause = "within-limit-error"
 	case o.Extra > 0:
